@@ -50,6 +50,10 @@ def cases(tier, seed, shard, nshards):
         k += 1
         if k % nshards == shard:
             yield c
+    for c in placeholder_cases():
+        k += 1
+        if k % nshards == shard:
+            yield c
     for d in DIALECT_CLASSES:
         setters = SETTERS + (MSSQL_SETTERS if d == "MSSQLQuery" else [])
         for setter in setters:
@@ -63,6 +67,47 @@ def cases(tier, seed, shard, nshards):
                                     if k % nshards == shard:
                                         yield {"d": d, "setter": setter, "lim": ln, "off": on, "order": order, "pos": pos,
                                                "mode": mode, "sur": sur}
+
+
+def placeholder_cases():
+    for d in DIALECT_CLASSES:
+        for pos in ("top", "set-operation", "from-subquery"):
+            for which in ("limit", "offset", "both"):
+                for mode in ("inline", "param"):
+                    yield {"k": "caller-placeholder", "d": d, "pos": pos, "which": which, "mode": mode}
+
+
+def run_placeholder(case, mon):
+    """The caller's own placeholder terms as limit / offset: they are terms, written as they are, never wrapped as constants."""
+    reg = registry()
+    d = case["d"]
+    Q = reg[d]
+    t = reg["Table"]("t")
+    P_ = reg["Parameter"]
+    q = Q.from_(t).select(t.id).where(t.a == "v1").orderby(t.id)
+    if case["pos"] == "set-operation":
+        q = q.union(Q.from_(t).select(t.b).where(t.b == "v2")).orderby(t.id)
+    if case["which"] in ("limit", "both"):
+        q = q.limit(P_(":lim"))
+    if case["which"] in ("offset", "both"):
+        q = q.offset(P_(":off"))
+    if case["pos"] == "from-subquery":
+        s_ = q.as_("s1")
+        q = Q.from_(s_).select(s_.id)
+    try:
+        sql, vals = render(q, d, case["mode"])
+    except Exception as e:
+        mon.violation("%s:caller-placeholder:raises:%s" % (DIALECT_OF[d], type(e).__name__), "a Parameter term as %s raised %r" % (case["which"], e))
+        return
+    mon.count("caller_placeholder_statements")
+    want = [x for x, w in ((":lim", "limit"), (":off", "offset")) if case["which"] in (w, "both")]
+    missing = [x for x in want if sql.count(x) != 1]
+    bad_vals = [v for v in (vals or []) if not isinstance(v, (str, int, float))]
+    if missing or bad_vals:
+        mon.violation("%s:caller-placeholder-wrapped:%s" % (DIALECT_OF[d] if d != "Query" else "generic", case["pos"]),
+                      "the caller's placeholder term(s) %s for %s are not written as given (%r), values %r" % (want, case["which"], sql[:260], [repr(v)[:30] for v in (vals or [])]))
+        return
+    mon.nontrivial(case)
 
 
 def update_cases():
@@ -398,6 +443,8 @@ def run_update(case, mon):
 def run_case(case, mon):
     if case.get("k") == "update":
         return run_update(case, mon)
+    if case.get("k") == "caller-placeholder":
+        return run_placeholder(case, mon)
     reg = registry()
     d, pos, mode = case["d"], case["pos"], case["mode"]
     lim, off = LIM[case["lim"]], OFF[case["off"]]
